@@ -331,6 +331,43 @@ def run_property(prop, tier="quick", seed=0, record_expected=False, only=None, j
     # every expected clause must have produced at least one VC (DESIGN 2.9.1)
     produced = {clause_of(r["name"]) for r in all_results}
     missing = [c for c in expected if c not in produced] if only is None else []
+    # a clause that was proved on the recorded tree and has no VC now (the code moved outside the interpreter's subset, a
+    # contracted helper disappeared, a task crashed): the native replay arbitrates - a reproduced disagreement with the oracle is a
+    # violation with a failing input, otherwise the clause stays UNDECIDED
+    replay_fn = getattr(mod, "replay", None)
+    if missing and replay_fn is not None:
+        import signal
+        still = []
+        memo = {}
+        for c in missing:
+            if expected.get(c) != "proved":
+                still.append(c)
+                continue
+            pseudo = {"name": c, "status": "unknown", "backend": "no-vc", "detail": "expected clause produced no VC", "model": None, "meta": {}}
+
+            def _alarm(signum, frame):
+                raise TimeoutError("native replay exceeded its time budget")
+            old = signal.signal(signal.SIGALRM, _alarm)
+            signal.alarm(int(os.environ.get("PYVC_REPLAY_TIMEOUT_S", "120")))
+            try:
+                rep = replay_fn(pseudo)
+            except TimeoutError as e:
+                rep = {"reproduced": None, "detail": str(e)}
+            except Exception:
+                rep = {"reproduced": None, "detail": "replay crashed: " + traceback.format_exc()[-1500:]}
+            finally:
+                signal.alarm(0)
+                signal.signal(signal.SIGALRM, old)
+            if rep is not None and rep.get("reproduced") is True:
+                os.makedirs(replay_dir, exist_ok=True)
+                rpath = os.path.join(replay_dir, sanitize(c) + ".json")
+                with open(rpath, "w") as f:
+                    json.dump({"property": prop, "obligation": c, "solver": "none (no VC could be generated)", "solver_output": pseudo["detail"],
+                               "model": None, "meta": {}, "replay": rep}, f, indent=1, default=str)
+                violations.append((pseudo, rpath, ""))
+            else:
+                still.append(c)
+        missing = still
 
     printed = set()
     for k in known_hits:
